@@ -36,4 +36,4 @@ RULE = ('behaviours = TLC simulation of MC_Cleaner (seeded, Sim_Cleaner_C08*.cfg
 
 
 def run(rep, tier, seed, replay):
-    cl.run_check(rep, tier, seed, replay, 'C08', NAMES, nontrivial, RULE)
+    cl.run_check(rep, tier, seed, replay, 'C08', NAMES, nontrivial, RULE, quick_num=450)
